@@ -1,0 +1,152 @@
+//go:build verif
+
+package bbolt
+
+import (
+	"sync/atomic"
+
+	"go.etcd.io/bbolt/internal/common"
+	fl "go.etcd.io/bbolt/internal/freelist"
+)
+
+// This file is only compiled with the `verif` build tag. It exposes
+// observation and fault-injection points for an external runtime-monitoring
+// harness. Without the tag (see verif_hooks_off.go) every call site below
+// compiles to nothing.
+
+// VerifIOEvent describes one I/O operation a DB is about to issue or has issued.
+type VerifIOEvent struct {
+	DB   *DB
+	Path string
+	Op   string // "write", "fdatasync", "truncate", "fsync", "mmap"
+	Off  int64  // write: file offset
+	Data []byte // write: the bytes (only valid during the callback)
+	Size int64  // write: len(Data); truncate: new length; mmap: map size
+
+	// Partial may be set by Before for a "write": the first Partial bytes are
+	// written to the file and then the returned error is reported.
+	Partial int
+}
+
+// VerifHooks is the handler table. Any field may be nil.
+type VerifHooks struct {
+	// Before runs before the operation. A non-nil error makes the operation
+	// fail with that error without being performed (but see Partial).
+	Before func(ev *VerifIOEvent) error
+	// After runs after the operation was performed (also when it failed).
+	After func(ev *VerifIOEvent, err error)
+	// Yield is called at points between critical sections.
+	Yield func(point string)
+	// CursorBudget is the number of internal loop steps one Cursor may take
+	// over its life time before it panics. 0 disables the check.
+	CursorBudget int64
+}
+
+var verifHooks atomic.Pointer[VerifHooks]
+
+// SetVerifHooks installs (or, with nil, removes) the handler table.
+func SetVerifHooks(h *VerifHooks) { verifHooks.Store(h) }
+
+const verifCursorPanic = "verif: cursor step budget exceeded"
+
+type verifCursorState struct {
+	steps int64
+}
+
+func verifCursorStep(c *Cursor) {
+	h := verifHooks.Load()
+	if h == nil || h.CursorBudget == 0 {
+		return
+	}
+	c.verif.steps++
+	if c.verif.steps > h.CursorBudget {
+		panic(verifCursorPanic)
+	}
+}
+
+func verifYield(point string) {
+	if h := verifHooks.Load(); h != nil && h.Yield != nil {
+		h.Yield(point)
+	}
+}
+
+func verifBefore(db *DB, op string, off int64, data []byte, size int64) error {
+	h := verifHooks.Load()
+	if h == nil || h.Before == nil {
+		return nil
+	}
+	ev := &VerifIOEvent{DB: db, Path: db.path, Op: op, Off: off, Data: data, Size: size, Partial: -1}
+	return h.Before(ev)
+}
+
+func verifAfter(db *DB, op string, off int64, data []byte, size int64, err error) {
+	h := verifHooks.Load()
+	if h == nil || h.After == nil {
+		return
+	}
+	ev := &VerifIOEvent{DB: db, Path: db.path, Op: op, Off: off, Data: data, Size: size, Partial: -1}
+	h.After(ev, err)
+}
+
+// verifWrapOps wraps the single write path of a DB (init, Tx.write, Tx.writeMeta).
+func verifWrapOps(db *DB) {
+	inner := db.ops.writeAt
+	db.ops.writeAt = func(b []byte, off int64) (int, error) {
+		h := verifHooks.Load()
+		if h == nil {
+			return inner(b, off)
+		}
+		ev := &VerifIOEvent{DB: db, Path: db.path, Op: "write", Off: off, Data: b, Size: int64(len(b)), Partial: -1}
+		if h.Before != nil {
+			if err := h.Before(ev); err != nil {
+				n := 0
+				if ev.Partial > 0 && ev.Partial <= len(b) {
+					n, _ = inner(b[:ev.Partial], off)
+					if h.After != nil {
+						pev := *ev
+						pev.Data = b[:n]
+						pev.Size = int64(n)
+						h.After(&pev, err)
+					}
+				}
+				return n, err
+			}
+		}
+		n, err := inner(b, off)
+		if h.After != nil {
+			h.After(ev, err)
+		}
+		return n, err
+	}
+}
+
+// VerifFreelistState is a read-only copy of the allocator's state.
+type VerifFreelistState = fl.VerifState
+
+// VerifFreelist returns a copy of the free-page allocator's state, or nil if
+// no freelist is loaded. It must not run concurrently with a write
+// transaction of another goroutine.
+func (db *DB) VerifFreelist() *VerifFreelistState {
+	db.metalock.Lock()
+	defer db.metalock.Unlock()
+	if db.freelist == nil {
+		return nil
+	}
+	st := fl.VerifExport(db.freelist)
+	return &st
+}
+
+// VerifMapSize returns the size of the current memory map.
+func (db *DB) VerifMapSize() int {
+	db.metalock.Lock()
+	defer db.metalock.Unlock()
+	return db.datasz
+}
+
+// VerifPageSize returns the page size in use.
+func (db *DB) VerifPageSize() int { return db.pageSize }
+
+// VerifMeta returns the fields of the meta a transaction works with.
+func (tx *Tx) VerifMeta() (root, freelist, hwm common.Pgid, txid common.Txid) {
+	return tx.meta.RootBucket().RootPage(), tx.meta.Freelist(), tx.meta.Pgid(), tx.meta.Txid()
+}
